@@ -93,7 +93,9 @@ def build_smib(p, rc):
     ss.add("Slack", dict(idx="INF", bus=3, Vn=230.0, Sn=100.0, v0=p["vinf"], a0=0.0))
     if p["pload"] > 0:
         ss.add("PQ", dict(idx="LD", bus=2, Vn=230.0, p0=p["pload"], q0=0.1 * p["pload"]))
-    ss.add("GENCLS", dict(idx="GEN", bus=1, gen="G1", Sn=p.get("Sn", 100.0), Vn=230.0, fn=p["f"], M=p["M"], D=p["D"], xd1=p["xd1"], ra=0.0))
+    # the inertia may be given a provisional value here and its real one through GENCLS.alter after TDS.init (simulate_smib)
+    M_built = p["M"] * 1.7 if p.get("alter_M_after_init") else p["M"]
+    ss.add("GENCLS", dict(idx="GEN", bus=1, gen="G1", Sn=p.get("Sn", 100.0), Vn=230.0, fn=p["f"], M=M_built, D=p["D"], xd1=p["xd1"], ra=0.0))
     ss.add("Toggle", dict(model="Line", dev="L2", t=p["t_open"]))
     if p["t_close"] is not None:
         ss.add("Toggle", dict(model="Line", dev="L2", t=p["t_close"]))
@@ -171,12 +173,17 @@ def reference_swing(p, V1, V2, V3, tgrid):
 
 def simulate_smib(p, h, method, sd, tag):
     from vf import au
-    rc = au.write_rc(os.path.join(sd, "s_%s.rc" % tag), {"TDS": dict(tstep=repr(h), tf=repr(p["tf"]), method=method, tol="1e-9", no_tqdm=1, criteria=0, max_iter=30),
+    rc = au.write_rc(os.path.join(sd, "s_%s.rc" % tag), {"TDS": dict(tstep=repr(h), tf=repr(p["tf"]), method=method, tol="1e-9", no_tqdm=1, criteria=0, max_iter=30,
+                                                                    refresh_event=int(p.get("refresh_event", 0))),
                                                         "PFlow": dict(report=0, tol="1e-12"), "System": dict(freq=p["f"])})
     ss = build_smib(p, rc)
     if not ss.PFlow.run():
         return None
     V = np.array(ss.Bus.v.v) * np.exp(1j * np.array(ss.Bus.a.v))
+    if p.get("alter_M_after_init"):
+        # "for every choice of inertia": also when it is set through the documented alteration call after the initialisation
+        ss.TDS.init()
+        ss.GENCLS.alter("M", "GEN", p["M"])
     ok = ss.TDS.run()
     if not ok:
         return None
@@ -190,8 +197,11 @@ def run_smib(spec, res):
     from vf import au
     rng = rng_for(spec.get("seed", 0), PROPERTY, 1, spec["index"])
     method = spec["method"]
+    rng2 = rng_for(spec.get("seed", 0), PROPERTY, 9, spec["index"])      # options added later: own stream
+    opt = dict(refresh_event=int(rng2.random() < 0.3), alter_M_after_init=bool(rng2.random() < 0.3))
     for attempt in range(5):
         p = gen_smib(rng)
+        p.update(opt)
         # backward Euler damps the swing numerically: its asymptotic range needs much smaller steps
         hs = [1 / 30, 1 / 60, 1 / 120, 1 / 240] if method == "trapezoid" else [1 / 240, 1 / 480, 1 / 960, 1 / 1920]
         with au.Scratch("c07") as sd:
@@ -213,6 +223,8 @@ def run_smib(spec, res):
         res.inconc("no stable SMIB sample in 5 draws")
         return
     res.count("smib_runs", len(hs))
+    res.count("smib_runs_refresh_event", len(hs) * int(p.get("refresh_event", 0)))
+    res.count("smib_runs_inertia_altered_after_init", len(hs) * int(bool(p.get("alter_M_after_init"))))
     # steady state derived independently must coincide with ANDES' own initial point
     r0 = runs[-1]
     if abs(r0["delta"][0] - info["delta0"]) > 1e-6:
